@@ -84,23 +84,37 @@ Variable hash256 : bytes -> bytes.
 
 (* ------------------------------------------------------------------ *)
 (* (2) completeness: an honestly built proof validates and yields the matched ids in order *)
-Lemma proof_complete : forall (ids : list bytes) (matches : list bool),
-  ids <> [] -> length matches = length ids ->
+Lemma all32_map_rev (hs : list bytes) : all32 (map (@rev Z) hs) = all32 hs.
+Proof.
+  unfold all32. induction hs as [|x r IH]; [reflexivity|]. cbn [map forallb]. now rewrite rev_length, IH.
+Qed.
+
+(* since 5e35f6e populate_tree rejects hashes that are not 32 bytes long, so completeness is
+   stated for what Bitcoin has: a 32-byte hash function and 32-byte transaction ids *)
+Lemma proof_complete :
+  (forall x, length (hash256 x) = 32%nat) ->
+  forall (ids : list bytes) (matches : list bool),
+  ids <> [] -> Forall (fun t => length t = 32%nat) ids -> length matches = length ids ->
   let txids := map (@rev Z) ids in
   let '(total, hashes, flags) := bip37_proof hash256 txids matches in
   total = zlen ids /\
   mb_is_valid_rec hash256 (rev (consensus_root hash256 txids)) total (map (@rev Z) hashes) flags
   = Ok (true, sel ids matches).
 Proof.
-  intros ids matches Hne Hlen txids. unfold bip37_proof.
+  intros HL ids matches Hne Hids Hlen txids. unfold bip37_proof.
   destruct (build hash256 txids matches) as [bits hashes] eqn:EB.
   split; [unfold zlen, txids; now rewrite map_length|].
   unfold mb_is_valid_rec, mb_is_valid_with. rewrite map_rev_rev.
   destruct (bit_field_of_bits_to_bytes (length bits) bits (le_n _)) as [k Hk]. rewrite Hk.
-  assert (length txids = length ids) as HL by (unfold txids; apply map_length).
+  assert (length txids = length ids) as HLn by (unfold txids; apply map_length).
   assert (1 <= length txids)%nat as Hn.
-  { rewrite HL. destruct ids; [congruence | cbn; lia]. }
-  pose proof (build_complete hash256 txids matches ltac:(lia) Hn (repeat 0 k) (forallb_zero_repeat k)) as HB.
+  { rewrite HLn. destruct ids; [congruence | cbn; lia]. }
+  assert (Forall (fun t => length t = 32%nat) txids) as HT.
+  { unfold txids. rewrite Forall_forall in *. intros t Ht. apply in_map_iff in Ht as [u [<- Hu]].
+    rewrite rev_length. auto. }
+  destruct (build_props hash256 txids HL HT matches Hn) as [H32 _].
+  apply all32_Forall in H32.
+  pose proof (build_complete hash256 txids matches ltac:(lia) Hn H32 (repeat 0 k) (forallb_zero_repeat k)) as HB.
   rewrite EB in HB. cbn [fst snd] in HB. unfold zlen. rewrite HB. cbn [bind].
   rewrite beq_refl. unfold txids. now rewrite sel_map, map_rev_rev.
 Qed.
@@ -145,31 +159,33 @@ Qed.
    Block with two transactions a, b (display order); the message announces total = 1 and
    presents the root itself as the only "transaction".  Holds for the cursor machine and
    for the recursive traversal, for every hash function. *)
-Lemma forged_total_2_as_1 : forall a b : bytes,
+Lemma forged_total_2_as_1 : (forall x, length (hash256 x) = 32%nat) -> forall a b : bytes,
   let ids := [a; b] in
   let node := hash256 (rev a ++ rev b) in          (* the root: an interior node *)
   validate_merkle_root hash256 (rev node) ids = Ok true /\
   mb_is_valid hash256 (rev node) 1 [rev node] [1] = Ok (true, [rev node]) /\
   mb_is_valid_rec hash256 (rev node) 1 [rev node] [1] = Ok (true, [rev node]).
 Proof.
-  intros a b ids node. repeat split.
+  intros HL a b ids node.
+  assert (all32 [node] = true) as A by (unfold all32, node; cbn [forallb]; now rewrite HL).
+  repeat split.
   - rewrite validate_merkle_root_eq by discriminate.
     assert (consensus_root hash256 (map (@rev Z) ids) = node) as -> by reflexivity.
     now rewrite beq_refl.
   - unfold mb_is_valid, mb_is_valid_with.
     assert (populate_tree hash256 1 (bytes_to_bit_field [1]) (map (@rev Z) [rev node]) =
             Ok (node, [rev node])) as ->.
-    { cbn [map]. rewrite rev_involutive. reflexivity. }
+    { cbn [map]. rewrite rev_involutive. unfold populate_tree. rewrite A. reflexivity. }
     cbn [bind]. now rewrite beq_refl.
   - unfold mb_is_valid_rec, mb_is_valid_with.
     assert (populate_tree_rec hash256 1 (bytes_to_bit_field [1]) (map (@rev Z) [rev node]) =
             Ok (node, [rev node])) as ->.
-    { cbn [map]. rewrite rev_involutive. reflexivity. }
+    { cbn [map]. rewrite rev_involutive. unfold populate_tree_rec. rewrite A. reflexivity. }
     cbn [bind]. now rewrite beq_refl.
 Qed.
 
 (* four transactions presented as total = 2: the two level-1 nodes are "proved" *)
-Lemma forged_total_4_as_2 : forall a b c d : bytes,
+Lemma forged_total_4_as_2 : (forall x, length (hash256 x) = 32%nat) -> forall a b c d : bytes,
   let ids := [a; b; c; d] in
   let n1 := hash256 (rev a ++ rev b) in
   let n2 := hash256 (rev c ++ rev d) in
@@ -178,53 +194,87 @@ Lemma forged_total_4_as_2 : forall a b c d : bytes,
   mb_is_valid hash256 (rev root) 2 [rev n1; rev n2] [7] = Ok (true, [rev n1; rev n2]) /\
   mb_is_valid_rec hash256 (rev root) 2 [rev n1; rev n2] [7] = Ok (true, [rev n1; rev n2]).
 Proof.
-  intros a b c d ids n1 n2 root. repeat split.
+  intros HL a b c d ids n1 n2 root.
+  assert (all32 [n1; n2] = true) as A by (unfold all32, n1, n2; cbn [forallb]; now rewrite !HL).
+  repeat split.
   - rewrite validate_merkle_root_eq by discriminate.
     assert (consensus_root hash256 (map (@rev Z) ids) = root) as -> by reflexivity.
     now rewrite beq_refl.
   - unfold mb_is_valid, mb_is_valid_with.
     assert (populate_tree hash256 2 (bytes_to_bit_field [7]) (map (@rev Z) [rev n1; rev n2]) =
             Ok (root, [rev n1; rev n2])) as ->.
-    { cbn [map]. rewrite !rev_involutive. reflexivity. }
+    { cbn [map]. rewrite !rev_involutive. unfold populate_tree. rewrite A. reflexivity. }
     cbn [bind]. now rewrite beq_refl.
   - unfold mb_is_valid_rec, mb_is_valid_with.
     assert (populate_tree_rec hash256 2 (bytes_to_bit_field [7]) (map (@rev Z) [rev n1; rev n2]) =
             Ok (root, [rev n1; rev n2])) as ->.
-    { cbn [map]. rewrite !rev_involutive. reflexivity. }
+    { cbn [map]. rewrite !rev_involutive. unfold populate_tree_rec. rewrite A. reflexivity. }
     cbn [bind]. now rewrite beq_refl.
 Qed.
 
 (* hashes of a length other than 32 (only possible for a MerkleBlock object that was not
-   produced by MerkleBlock.parse): the concatenation la ++ lb can be split elsewhere, so a
-   two-transaction proof with authentic total yields two strings that are no txids *)
-Lemma split_hash_length : forall (la lb' : bytes) (x : Z),
-  let lb := x :: lb' in
-  let ids := [rev la; rev lb] in
-  let root := hash256 (la ++ lb) in
-  validate_merkle_root hash256 (rev root) ids = Ok true /\
-  mb_is_valid hash256 (rev root) 2 [rev (la ++ [x]); rev lb'] [7]
-    = Ok (true, [rev (la ++ [x]); rev lb']) /\
-  mb_is_valid_rec hash256 (rev root) 2 [rev (la ++ [x]); rev lb'] [7]
-    = Ok (true, [rev (la ++ [x]); rev lb']).
+   produced by MerkleBlock.parse) are rejected since 5e35f6e: is_valid raises; conversely a
+   proof that is_valid returns a value for has only 32-byte hashes *)
+Lemma is_valid_rejects_bad_length : forall hdr_root total hashes flags,
+  ~ Forall (fun t => length t = 32%nat) hashes ->
+  mb_is_valid hash256 hdr_root total hashes flags = Err /\
+  mb_is_valid_rec hash256 hdr_root total hashes flags = Err.
 Proof.
-  intros la lb' x lb ids root. repeat split.
-  - rewrite validate_merkle_root_eq by discriminate.
-    assert (consensus_root hash256 (map (@rev Z) ids) = root) as ->.
-    { unfold ids. cbn [map]. rewrite !rev_involutive. reflexivity. }
-    now rewrite beq_refl.
-  - unfold mb_is_valid, mb_is_valid_with.
-    assert (populate_tree hash256 2 (bytes_to_bit_field [7]) (map (@rev Z) [rev (la ++ [x]); rev lb']) =
-            Ok (root, [rev (la ++ [x]); rev lb'])) as ->.
-    { cbn [map]. rewrite !rev_involutive. unfold root, lb.
-      replace (la ++ x :: lb') with ((la ++ [x]) ++ lb') by (rewrite <- app_assoc; reflexivity).
-      reflexivity. }
-    cbn [bind]. now rewrite beq_refl.
-  - unfold mb_is_valid_rec, mb_is_valid_with.
-    assert (populate_tree_rec hash256 2 (bytes_to_bit_field [7]) (map (@rev Z) [rev (la ++ [x]); rev lb']) =
-            Ok (root, [rev (la ++ [x]); rev lb'])) as ->.
-    { cbn [map]. rewrite !rev_involutive. unfold root, lb.
-      replace (la ++ x :: lb') with ((la ++ [x]) ++ lb') by (rewrite <- app_assoc; reflexivity).
-      reflexivity. }
-    cbn [bind]. now rewrite beq_refl.
+  intros hdr_root total hashes flags HN.
+  assert (all32 (map (@rev Z) hashes) = false) as A.
+  { rewrite all32_map_rev. destruct (all32 hashes) eqn:E; [|reflexivity].
+    exfalso. apply HN. now apply all32_Forall. }
+  unfold mb_is_valid, mb_is_valid_rec, mb_is_valid_with, populate_tree, populate_tree_rec.
+  rewrite A. cbn [negb]. split.
+  - destruct (mt_init total); reflexivity.
+  - destruct (total <? 1); reflexivity.
+Qed.
+
+Lemma is_valid_ok_32 : forall hdr_root total hashes flags r,
+  mb_is_valid hash256 hdr_root total hashes flags = Ok r ->
+  Forall (fun t => length t = 32%nat) hashes.
+Proof.
+  intros hdr_root total hashes flags r H.
+  destruct (all32 hashes) eqn:E; [now apply all32_Forall|]. exfalso.
+  assert (~ Forall (fun t => length t = 32%nat) hashes) as HN.
+  { intros F. apply all32_Forall in F. congruence. }
+  destruct (is_valid_rejects_bad_length hdr_root total hashes flags HN) as [E1 _]. congruence.
+Qed.
+
+Lemma is_valid_rec_ok_32 : forall hdr_root total hashes flags r,
+  mb_is_valid_rec hash256 hdr_root total hashes flags = Ok r ->
+  Forall (fun t => length t = 32%nat) hashes.
+Proof.
+  intros hdr_root total hashes flags r H.
+  destruct (all32 hashes) eqn:E; [now apply all32_Forall|]. exfalso.
+  assert (~ Forall (fun t => length t = 32%nat) hashes) as HN.
+  { intros F. apply all32_Forall in F. congruence. }
+  destruct (is_valid_rejects_bad_length hdr_root total hashes flags HN) as [_ E2]. congruence.
+Qed.
+
+(* (3) without the premise on the proof's hashes *)
+Lemma proof_sound_known_total_nolen :
+  (forall x, length (hash256 x) = 32%nat) ->
+  forall (ids : list bytes) hdr_root hashes flags proved,
+  ids <> [] -> Forall (fun t => length t = 32%nat) ids ->
+  validate_merkle_root hash256 hdr_root ids = Ok true ->
+  mb_is_valid_rec hash256 hdr_root (zlen ids) hashes flags = Ok (true, proved) ->
+  (forall m, In m proved -> In m ids) \/
+  (exists x y : bytes, x <> y /\ hash256 x = hash256 y).
+Proof.
+  intros HL ids hdr_root hashes flags proved Hne Hids HV HP.
+  exact (proof_sound_known_total HL ids hdr_root hashes flags proved Hne Hids
+           (is_valid_rec_ok_32 _ _ _ _ _ HP) HV HP).
+Qed.
+
+(* the former witness of K-C17-hashlen: a 33- and a 31-byte hash for a 2-transaction block *)
+Lemma split_hash_length_rejected : forall (la lb' : bytes) (x : Z),
+  length (la ++ [x]) <> 32%nat ->
+  let root := hash256 (la ++ x :: lb') in
+  mb_is_valid hash256 (rev root) 2 [rev (la ++ [x]); rev lb'] [7] = Err /\
+  mb_is_valid_rec hash256 (rev root) 2 [rev (la ++ [x]); rev lb'] [7] = Err.
+Proof.
+  intros la lb' x HN root. apply is_valid_rejects_bad_length.
+  intros F. inversion F as [|? ? H1 _]; subst. rewrite rev_length in H1. contradiction.
 Qed.
 End MBP.
